@@ -183,6 +183,10 @@ func stripConv(v ssa.Value) ssa.Value {
 // Reaching stores for non-lifted local variables (named results in functions with defer,
 // variables whose address is taken for a pointer-receiver call, closure-captured variables).
 
+// zeroStore is a sentinel member of reaching-store sets: "no store yet" — the variable may still hold
+// its zero value on some path to this point.
+var zeroStore = &ssa.Store{}
+
 type allocFacts struct {
 	// out[b] = set of Store instructions that may be the last store to the alloc at exit of b.
 	in, out map[*ssa.BasicBlock]map[*ssa.Store]bool
@@ -239,6 +243,9 @@ func (p *Program) allocInfo(a *ssa.Alloc) *allocFacts {
 		changed = false
 		for _, b := range fn.Blocks {
 			in := map[*ssa.Store]bool{}
+			if b == fn.Blocks[0] {
+				in[zeroStore] = true
+			}
 			for _, pr := range b.Preds {
 				for s := range af.out[pr] {
 					in[s] = true
@@ -377,6 +384,9 @@ func (p *Program) loadSource(u *ssa.UnOp) (ssa.Value, bool) {
 	in := af.in[b]
 	if len(in) == 1 {
 		for s := range in {
+			if s == zeroStore {
+				return nil, false
+			}
 			return s.Val, true
 		}
 	}
@@ -400,11 +410,32 @@ func (p *Program) storesReaching(a *ssa.Alloc, at ssa.Instruction) ([]*ssa.Store
 		return []*ssa.Store{last}, !af.unknown
 	}
 	var out []*ssa.Store
+	mayBeZero := false
 	for s := range af.in[b] {
+		if s == zeroStore {
+			mayBeZero = true
+			continue
+		}
 		out = append(out, s)
 	}
 	sort.Slice(out, func(i, j int) bool { return out[i].Pos() < out[j].Pos() })
-	return out, !af.unknown
+	// when the zero value may still be there the list of stores is not the full set of values
+	return out, !af.unknown && !mayBeZero
+}
+
+// mayHoldZero reports whether alloc a may still hold its zero value at instruction `at`.
+func (p *Program) mayHoldZero(a *ssa.Alloc, at ssa.Instruction) bool {
+	af := p.allocInfo(a)
+	b := at.Block()
+	for _, ins := range b.Instrs {
+		if ins == at {
+			break
+		}
+		if s, ok := ins.(*ssa.Store); ok && s.Addr == ssa.Value(a) {
+			return false
+		}
+	}
+	return af.in[b][zeroStore]
 }
 
 // ---------------------------------------------------------------------------------------------
